@@ -292,13 +292,13 @@ impl<F: RichField + Extendable<D>, const D: usize> CircuitBuilder<F, D> {
 
         let mut product = self.one();
         for (i, bit) in exponent_bits.iter().enumerate() {
-            let pow = 1 << i;
+            let pow = 1u64 << i;
             // If the bit is on, we multiply product by base^pow.
             // We can arithmetize this as:
             //     product *= 1 + bit (base^pow - 1)
             //     product = (base^pow - 1) product bit + product
             product = self.arithmetic(
-                base.exp_u64(pow as u64) - F::ONE,
+                base.exp_u64(pow) - F::ONE,
                 F::ONE,
                 product,
                 bit.target,
